@@ -67,9 +67,18 @@ class Rx:
         except Exception as e:
             raise AnchorMissing(f"regex does not parse: {pattern!r}: {e}") from e
         items = list(parsed)
+        # ^ … $ : the automaton describes the full-match language; the anchors are recorded, not modelled
+        self.anchored_start = self.anchored_end = False
+        if items and items[0][0] is sre_c.AT and str(items[0][1]).split(".")[-1] in ("AT_BEGINNING", "AT_BEGINNING_STRING"):
+            self.anchored_start = True
+            items = items[1:]
+        if items and items[-1][0] is sre_c.AT and str(items[-1][1]).split(".")[-1] in ("AT_END", "AT_END_STRING"):
+            self.anchored_end = True
+            items = items[:-1]
         if items and items[-1][0] is sre_c.AT and str(items[-1][1]).endswith("AT_BOUNDARY"):
             self.trailing_boundary = True
             items = items[:-1]
+        self._multiline = bool(flags & 8)
         self.nfa = NFA()
         s = self.nfa.new()
         f = self._seq(items, s, bool(flags & 2))
@@ -162,6 +171,9 @@ class Rx:
                 cur = self._seq(list(p), cur, icase)
                 n.e(cur, f)
             return f
+        if op is sre_c.AT and str(av).split(".")[-1] in ("AT_BEGINNING", "AT_BEGINNING_STRING") and not getattr(self, "_multiline", False):
+            # `^` after something was consumed (it is not the leading item, which the constructor strips) never matches
+            return n.new()       # a fresh state nothing leads to: the rest of this sequence is unreachable
         if op is sre_c.AT:
             raise AnchorMissing(f"regex assertion {av} not supported except a trailing \\b")
         raise AnchorMissing(f"regex operator {op} not supported")
